@@ -1038,7 +1038,10 @@ class TensorDict(TensorDictBase):
             names = None
             if self._has_names():
                 names = copy(self.names)
-                if not keepdim and isinstance(dim, tuple):
+                if keepdim:
+                    # every batch dim is kept (with size 1 where reduced)
+                    pass
+                elif isinstance(dim, tuple):
                     names = [name for i, name in enumerate(names) if i not in dim]
                 else:
                     names = [name for i, name in enumerate(names) if i != dim]
